@@ -266,11 +266,24 @@ impl TensorWal {
         let path = path.as_ref().to_path_buf();
 
         // Get current size if file exists
-        let current_size = if path.exists() {
+        let mut current_size = if path.exists() {
             std::fs::metadata(&path)?.len()
         } else {
             0
         };
+
+        // A crash in the middle of an append leaves a partial record at the
+        // end of the file. Cut it off before appending: records written after
+        // a partial one could never be read back.
+        if current_size > 0 {
+            let valid = Self::complete_records_len(&path)?;
+            if valid < current_size {
+                let file = OpenOptions::new().write(true).open(&path)?;
+                file.set_len(valid)?;
+                file.sync_all()?;
+                current_size = valid;
+            }
+        }
 
         let file = OpenOptions::new().create(true).append(true).open(&path)?;
 
@@ -282,6 +295,27 @@ impl TensorWal {
             current_size,
             pending_sync_count: 0,
         })
+    }
+
+    /// Length of the longest prefix of the file made of complete records.
+    fn complete_records_len(path: &Path) -> io::Result<u64> {
+        let mut reader = BufReader::new(File::open(path)?);
+        let mut valid = 0u64;
+        loop {
+            let mut header = [0u8; 8];
+            match reader.read_exact(&mut header) {
+                Ok(()) => {},
+                Err(e) if e.kind() == io::ErrorKind::UnexpectedEof => break,
+                Err(e) => return Err(e),
+            }
+            let len = u64::from(u32::from_le_bytes([header[0], header[1], header[2], header[3]]));
+            let copied = io::copy(&mut reader.by_ref().take(len), &mut io::sink())?;
+            if copied < len {
+                break;
+            }
+            valid += 8 + len;
+        }
+        Ok(valid)
     }
 
     /// Get the WAL file path.
